@@ -5,25 +5,20 @@ From S2T Require C07.Model C07.Proofs.
 Import ListNotations.
 Open Scope N_scope.
 
-(* ------------------------------------------------------------------ get_body_content = first eligible parts *)
+(* ------------------------------------------------------------------ HEAD: get_body_content = first eligible parts *)
 Definition pick (cur : str) (ct : str) (l : list part) : str :=
   if C03.Lib.nonempty cur then cur
   else match find (eligible ct) l with Some p => p_text p | None => [] end.
 
 Lemma plain_not_html c : str_eqb c TEXT_PLAIN = true -> str_eqb c TEXT_HTML = false.
-Proof.
-  intro H. apply str_eqb_eq in H. subst c. reflexivity.
-Qed.
-
-Lemma nonempty_false_nil x : C03.Lib.nonempty x = false -> x = [].
-Proof. destruct x; [reflexivity | discriminate]. Qed.
+Proof. intro H. apply str_eqb_eq in H. subst c. reflexivity. Qed.
 
 Definition upd (cur ct : str) (p : part) : str :=
   if C03.Lib.nonempty cur then cur else if eligible ct p then p_text p else [].
 
 Lemma body_step_upd bp bh p : body_step (bp, bh) p = (upd bp TEXT_PLAIN p, upd bh TEXT_HTML p).
 Proof.
-  destruct p as [c d h t k]. unfold body_step, upd, eligible, is_attachment. cbn [p_ctype p_disp p_has p_text].
+  destruct p as [c d f n m h t k]. unfold body_step, upd, eligible, is_attachment. cbn [p_ctype p_disp p_has p_text].
   destruct (contains d (s "attachment")); cbn [negb andb].
   { destruct bp; destruct bh; reflexivity. }
   destruct (str_eqb c TEXT_PLAIN) eqn:CP.
@@ -49,57 +44,150 @@ Proof.
   - cbn [fold_left]. rewrite body_step_upd, IH, !pick_cons. reflexivity.
 Qed.
 
-Lemma body_selection_spec root :
-  get_body_content true root = (first_text TEXT_PLAIN root, first_text TEXT_HTML root).
-Proof. unfold get_body_content. rewrite body_fold. reflexivity. Qed.
-
-(* a part whose Content-Disposition contains "attachment" is never the body *)
-Lemma find_some_eligible ct l p : find (eligible ct) l = Some p -> In p l /\ eligible ct p = true.
-Proof. apply find_some. Qed.
+Lemma body_selection_spec root : p_multi root = true ->
+  get_body_content root = (first_text TEXT_PLAIN root, first_text TEXT_HTML root).
+Proof. intro M. unfold get_body_content. rewrite M, body_fold. reflexivity. Qed.
 
 Lemma body_never_attachment ct root :
   first_text ct root = [] \/
   exists p, In p (walk root) /\ is_attachment p = false /\ p_ctype p = ct /\ p_has p = true /\ first_text ct root = p_text p.
 Proof.
   unfold first_text. destruct (find (eligible ct) (walk root)) as [p|] eqn:F; [right | left; reflexivity].
-  apply find_some_eligible in F as [I E]. unfold eligible in E.
+  apply find_some in F as [I E]. unfold eligible in E.
   apply andb_true_iff in E as [E _]. apply andb_true_iff in E as [E H]. apply andb_true_iff in E as [A C].
   exists p. repeat split; try assumption.
   - apply negb_true_iff in A. exact A.
   - apply str_eqb_eq in C. exact C.
 Qed.
 
-Lemma all_attachments_no_body root :
-  forallb is_attachment (walk root) = true -> get_body_content true root = ([], []).
+Lemma all_attachments_no_body root : p_multi root = true ->
+  forallb is_attachment (walk root) = true -> get_body_content root = ([], []).
 Proof.
-  intro H. rewrite body_selection_spec. unfold first_text.
+  intros M H. rewrite body_selection_spec by exact M. unfold first_text.
   assert (G : forall ct, find (eligible ct) (walk root) = None).
   { intro ct. destruct (find (eligible ct) (walk root)) as [p|] eqn:F; [|reflexivity].
-    apply find_some_eligible in F as [I E]. rewrite forallb_forall in H. specialize (H p I).
+    apply find_some in F as [I E]. rewrite forallb_forall in H. specialize (H p I).
     unfold eligible in E. rewrite H in E. discriminate E. }
   rewrite !G. reflexivity.
 Qed.
 
-(* witness: the text of a message attached as message/rfc822 becomes the body of the outer message *)
-Definition w_inner : part := Part TEXT_PLAIN [] true (s "INNER BODY") [].
-Definition w_att : part := Part (s "message/rfc822") (s "attachment") false [] [w_inner].
+Lemma body_single root : p_multi root = false ->
+  get_body_content root =
+    if p_has root then (if str_eqb (p_ctype root) TEXT_HTML then ([], p_text root) else (p_text root, [])) else ([], []).
+Proof. intro M. unfold get_body_content. rewrite M. reflexivity. Qed.
+
+(* ------------------------------------------------------------------ PROPOSED variant (not HEAD): get_body_content_joined = all inline text parts, joined *)
+Lemma nonempty_false_nil x : C03.Lib.nonempty x = false -> x = [].
+Proof. destruct x; [reflexivity | discriminate]. Qed.
+
+Lemma body_fold_joined single l : forall pl ht,
+  fold_left (body_step_joined single) l (pl, ht) =
+    (pl ++ map p_text (filter (sel_plain single) l), ht ++ map p_text (filter sel_html l)).
+Proof.
+  induction l as [|p l IH]; intros pl ht.
+  - cbn. rewrite !app_nil_r. reflexivity.
+  - cbn [fold_left filter]. unfold body_step_joined at 2, sel_plain at 1, sel_html at 1.
+    destruct (str_eqb (p_ctype p) TEXT_HTML) eqn:H; cbn [negb andb].
+    + destruct (p_has p); rewrite IH; [|reflexivity]. cbn [map]. rewrite <- app_assoc. reflexivity.
+    + destruct (str_eqb (p_ctype p) TEXT_PLAIN || single); cbn [andb]; [|apply IH].
+      destruct (p_has p); rewrite IH; [|reflexivity]. cbn [map]. rewrite <- app_assoc. reflexivity.
+Qed.
+
+Lemma body_selection_spec_joined root : get_body_content_joined root = body_spec_joined root.
+Proof. unfold get_body_content_joined, body_spec_joined. rewrite body_fold_joined. reflexivity. Qed.
+
+(* what _classify_parts returns *)
+Lemma flat_map_In_ind (P : part -> Prop) (f : part -> list part) ks :
+  Forall (fun k => forall q, In q (f k) -> P q) ks -> forall q, In q (flat_map f ks) -> P q.
+Proof.
+  induction 1 as [|k ks Hk _ IH]; intros q Hq; [destruct Hq|].
+  cbn in Hq. apply in_app_or in Hq as [Hq|Hq]; auto.
+Qed.
+
+Fixpoint part_ind' (P : part -> Prop)
+    (step : forall c d f n m h t ks, Forall P ks -> P (Part c d f n m h t ks)) (p : part) : P p :=
+  match p with
+  | Part c d f n m h t ks =>
+      step c d f n m h t ks
+        ((fix go (l : list part) : Forall P l :=
+            match l with [] => Forall_nil P | k :: r => Forall_cons k (part_ind' P step k) (go r) end) ks)
+  end.
+
+Lemma inline_parts_sound root : forall p, In p (inline_parts root) -> is_attachment_joined p = false /\ p_multi p = false.
+Proof.
+  induction root as [c d f n m h t ks IH] using part_ind'. intros p Hp. cbn [inline_parts] in Hp.
+  destruct (att_fields d f) eqn:A; [destruct Hp|]. destruct m.
+  - revert p Hp. apply flat_map_In_ind. exact IH.
+  - destruct Hp as [<- | []]. split; [exact A | reflexivity].
+Qed.
+
+Lemma attachment_parts_sound root : forall p, In p (attachment_parts root) -> is_attachment_joined p = true.
+Proof.
+  induction root as [c d f n m h t ks IH] using part_ind'. intros p Hp. cbn [attachment_parts] in Hp.
+  destruct (att_fields d f) eqn:A.
+  - destruct Hp as [<- | []]. exact A.
+  - destruct m; [|destruct Hp]. revert p Hp. apply flat_map_In_ind. exact IH.
+Qed.
+
+Lemma attachment_no_inline a : is_attachment_joined a = true -> inline_parts a = [] /\ attachment_parts a = [a].
+Proof. destruct a as [c d f n m h t ks]. unfold is_attachment_joined. cbn. intro H. rewrite H. split; reflexivity. Qed.
+
+(* whatever an attachment contains does not reach the bodies: replace one attachment by another anywhere in the tree *)
+Lemma flat_map_hole (f : part -> list part) l r p p' : f p = f p' -> flat_map f (l ++ p :: r) = flat_map f (l ++ p' :: r).
+Proof. intro H. rewrite !flat_map_app. cbn [flat_map]. rewrite H. reflexivity. Qed.
+
+Lemma plug_inline ctx : forall p p', inline_parts p = inline_parts p' -> inline_parts (plug ctx p) = inline_parts (plug ctx p').
+Proof.
+  induction ctx as [|f ctx IH]; intros p p' H; [exact H|].
+  cbn [plug]. apply IH. cbn [inline_parts]. destruct (att_fields (f_disp f) (f_fname f)); [reflexivity|].
+  apply flat_map_hole. exact H.
+Qed.
+
+Lemma plug_multi ctx : forall p p', p_multi p = p_multi p' -> p_multi (plug ctx p) = p_multi (plug ctx p').
+Proof. induction ctx as [|f ctx IH]; intros p p' H; [exact H|]. cbn [plug]. apply IH. reflexivity. Qed.
+
+Lemma body_ignores_attachment_contents ctx a a' :
+  is_attachment_joined a = true -> is_attachment_joined a' = true ->
+  get_body_content_joined (plug ctx a) = get_body_content_joined (plug ctx a').
+Proof.
+  intros Ha Ha'. destruct (attachment_no_inline a Ha) as [Ia _]. destruct (attachment_no_inline a' Ha') as [Ia' _].
+  destruct ctx as [|f ctx].
+  - cbn [plug]. unfold get_body_content_joined. rewrite Ia, Ia'. reflexivity.
+  - unfold get_body_content_joined.
+    rewrite (plug_inline (f :: ctx) a a') by (rewrite Ia, Ia'; reflexivity).
+    cbn [plug]. rewrite (plug_multi ctx _ (Part (f_ctype f) (f_disp f) (f_fname f) (f_dname f) true (f_has f) (f_text f)
+                                             (f_left f ++ a' :: f_right f))) by reflexivity.
+    reflexivity.
+Qed.
+
+(* the unrepaired code: the text of a message attached as message/rfc822 became the body of the outer message *)
+Definition w_inner : part := Part TEXT_PLAIN [] [] [] false true (s "INNER BODY") [].
+Definition w_att : part := Part (s "message/rfc822") (s "attachment") [] [] true false [] [w_inner].
 Definition w_outer : part :=
-  Part (s "multipart/mixed") [] false [] [Part TEXT_HTML [] true (s "<p>outer</p>") []; w_att].
+  Part (s "multipart/mixed") [] [] [] true false [] [Part TEXT_HTML [] [] [] false true (s "<p>outer</p>") []; w_att].
 
 Lemma body_inside_attachment :
-  exists root att p, In att (walk root) /\ is_attachment att = true /\ In p (below att) /\
-    C03.Lib.nonempty (p_text p) = true /\ fst (get_body_content true root) = p_text p.
+  exists root att p, In att (walk root) /\ contains (p_disp att) (s "attachment") = true /\ In p (below att) /\
+    C03.Lib.nonempty (p_text p) = true /\ fst (get_body_content root) = p_text p /\
+    fst (get_body_content_joined root) = [].
 Proof.
   exists w_outer, w_att, w_inner. repeat split.
   - simpl. right. right. left. reflexivity.
   - simpl. left. reflexivity.
 Qed.
 
-(* single-part messages *)
-Lemma body_single root :
-  get_body_content false root =
-    if p_has root then (if str_eqb (p_ctype root) TEXT_HTML then ([], p_text root) else (p_text root, [])) else ([], []).
-Proof. reflexivity. Qed.
+(* several inline text parts: the unrepaired code kept only the first *)
+Definition w_two : part :=
+  Part (s "multipart/mixed") [] [] [] true false []
+    [Part TEXT_PLAIN [] [] [] false true (s "first") []; Part TEXT_PLAIN [] [] [] false true (s "second") []].
+Lemma several_inline_parts :
+  fst (get_body_content w_two) = s "first" /\ fst (get_body_content_joined w_two) = s "first" ++ [NL] ++ s "second".
+Proof. split; vm_compute; reflexivity. Qed.
+
+Lemma get_attachments_joined_spec root :
+  get_attachments_joined root = map (fun p => (or_default (p_dname p) ATTACHMENT_NAME, p_ctype p)) (attachment_parts root)
+  /\ forall p, In p (attachment_parts root) -> is_attachment_joined p = true.
+Proof. split; [reflexivity | apply attachment_parts_sound]. Qed.
 
 (* ------------------------------------------------------------------ unfolding *)
 Lemma unfold_no_crlf x : no_crlf x = true -> unfold x = x.
